@@ -4,19 +4,23 @@ namespace TfelVerif.C25.Props
 open Finset TfelVerif TfelVerif.C25 TfelVerif.C25.Spec TfelVerif.C25.Lemmas
 variable {K : Type} [Field K] [LinearOrder K] [IsStrictOrderedRing K] (c c3 : K) (fn : Fns K)
 
-theorem SphMT_KG (K0 G0 f K1 G1 : K) (hK0 : 0 < K0) (hG0 : 0 < G0) (hK1 : 0 < K1) (hG1 : 0 < G1)
-    (hf0 : 0 ≤ f) (hf1 : f ≤ 1) :
-    Gen.SphMT_KG_all c c3 fn K0 G0 f K1 G1 =
-      [hs ![1 - f, f] ![K0, K1] (Ks3 G0), hs ![1 - f, f] ![G0, G1] (H3 K0 G0)] := by
-  unfold Gen.SphMT_KG_all
-  extract_lets +preserveBinderNames
-  have e29 : n29 = K0 := by
-    simp only [n29, n28, n27, n26, n16, n15, n13, n12, n11, n9, n8, n6]
-    field_simp
-    ring
-  have e31 : n31 = G0 := by
-    simp only [n31, n30, n16, n15, n13, n12, n11, n9, n8, n6]
-    field_simp
-    ring
-  sorry
+/-- componentwise comparison of a traced 6×6 (or 4×4) tensor with a closed form, by `ring` -/
+macro "tensor_ring" d:term : tactic => `(tactic| (
+  simp only [$d:term, iso6, voigt_fin2, voigt_fin3, voigt_fin4, voigt_fin5, List.cons.injEq, and_true]
+  repeat' apply And.intro
+  all_goals ring))
+
+theorem Voigt3_n2 (f0 f1 K0 K1 G0 G1 : K) :
+    Gen.Voigt3_n2_all c c3 fn f0 f1 K0 K1 G0 G1
+      = iso6 (3 * voigt ![f0, f1] ![K0, K1]) (2 * voigt ![f0, f1] ![G0, G1]) := by
+  tensor_ring Gen.Voigt3_n2_all
+theorem Voigt3_n5 (f0 f1 f2 f3 f4 K0 K1 K2 K3 K4 G0 G1 G2 G3 G4 : K) :
+    Gen.Voigt3_n5_all c c3 fn f0 f1 f2 f3 f4 K0 K1 K2 K3 K4 G0 G1 G2 G3 G4
+      = iso6 (3 * voigt ![f0, f1, f2, f3, f4] ![K0, K1, K2, K3, K4]) (2 * voigt ![f0, f1, f2, f3, f4] ![G0, G1, G2, G3, G4]) := by
+  tensor_ring Gen.Voigt3_n5_all
+theorem SphEshelby (nu : K) (h : 1 - nu ≠ 0):
+    Gen.SphEshelby_all c c3 fn nu = iso6 ((1 + nu) / (3 * (1 - nu))) (2 * (4 - 5 * nu) / (15 * (1 - nu))) := by
+  simp only [Gen.SphEshelby_all, iso6, List.cons.injEq, and_true]
+  repeat' apply And.intro
+  all_goals (field_simp; ring)
 end TfelVerif.C25.Props
